@@ -140,6 +140,19 @@ namespace bloch::compiler {
             return false;
         };
 
+        // Class and array types carry the Unknown primitive tag together with a class name; a type
+        // is unknown (not inferable, given the benefit of the doubt) only when it has neither.
+        bool isUnknownType(const SemanticAnalyser::TypeInfo& t) {
+            return t.value == ValueType::Unknown && t.className.empty();
+        }
+
+        // May a value of type 'actual' be stored where the primitive 'expected' is declared?
+        bool primitiveAccepts(ValueType expected, const SemanticAnalyser::TypeInfo& actual) {
+            if (!actual.className.empty())
+                return false;  // an object or an array is never a primitive value
+            return matchesPrimitive(expected, actual.value);
+        }
+
         bool isArrayTypeName(const std::string& name) {
             return name.size() >= 2 && name.rfind("[]") == name.size() - 2;
         }
@@ -834,7 +847,7 @@ namespace bloch::compiler {
 
         if (auto primType = targetInfo.value; primType != ValueType::Unknown) {
             ValueType initT = initInfo.value;
-            if (!matchesPrimitive(primType, initT)) {
+            if (!primitiveAccepts(primType, initInfo)) {
                 if (primType == ValueType::Bit) {
                     if (auto lit = dynamic_cast<LiteralExpression*>(initializer)) {
                         if (lit->literalType == "int") {
@@ -864,8 +877,7 @@ namespace bloch::compiler {
                     throw BlochError(ErrorCategory::Semantic, line, column,
                                      "initialiser for '" + name + "' cannot be null");
                 }
-            } else if (!isAssignableType(targetInfo, initInfo) &&
-                       initInfo.value != ValueType::Unknown) {
+            } else if (!isAssignableType(targetInfo, initInfo) && !isUnknownType(initInfo)) {
                 throw BlochError(
                     ErrorCategory::Semantic, line, column,
                     "initialiser for '" + name + "' expected '" + typeLabel(targetInfo) + "'");
@@ -1694,7 +1706,7 @@ namespace bloch::compiler {
                         throw BlochError(ErrorCategory::Semantic, node.line, node.column,
                                          "return type mismatch");
                     }
-                } else if (!matchesPrimitive(m_currentReturn.value, actual.value)) {
+                } else if (!primitiveAccepts(m_currentReturn.value, actual)) {
                     throw BlochError(ErrorCategory::Semantic, node.line, node.column,
                                      "return type mismatch");
                 }
@@ -1857,8 +1869,7 @@ namespace bloch::compiler {
                         throw BlochError(ErrorCategory::Semantic, node.line, node.column,
                                          "cannot assign null to '" + node.name + "'");
                     }
-                } else if (valType.value != ValueType::Unknown &&
-                           !isAssignableType(targetType, valType)) {
+                } else if (!isUnknownType(valType) && !isAssignableType(targetType, valType)) {
                     throw BlochError(ErrorCategory::Semantic, node.line, node.column,
                                      "assignment to '" + node.name + "' expects '" +
                                          typeLabel(targetType) + "'");
@@ -1883,13 +1894,13 @@ namespace bloch::compiler {
                     }
                 }
                 if (!targetType.className.empty() && valType.value != ValueType::Null &&
-                    valType.value != ValueType::Unknown && !isAssignableType(targetType, valType)) {
+                    !isUnknownType(valType) && !isAssignableType(targetType, valType)) {
                     throw BlochError(ErrorCategory::Semantic, node.line, node.column,
                                      "assignment to field '" + node.name + "' expects '" +
                                          typeLabel(targetType) + "'");
-                } else if (field->type.value != ValueType::Unknown &&
-                           valType.value != ValueType::Unknown &&
-                           !matchesPrimitive(targetType.value, valType.value)) {
+                } else if (field->type.value != ValueType::Unknown && !isUnknownType(valType) &&
+                           valType.value != ValueType::Null &&
+                           !primitiveAccepts(targetType.value, valType)) {
                     throw BlochError(ErrorCategory::Semantic, node.line, node.column,
                                      "assignment to field '" + node.name + "' expects '" +
                                          typeToString(targetType.value) + "'");
@@ -2183,9 +2194,8 @@ namespace bloch::compiler {
                                          "argument #" + std::to_string(i + 1) + " to '" + name +
                                              "' expected '" + typeLabel(expected) + "'");
                     }
-                } else if (expected.value != ValueType::Unknown &&
-                           actual.value != ValueType::Unknown &&
-                           !matchesPrimitive(expected.value, actual.value)) {
+                } else if (expected.value != ValueType::Unknown && !isUnknownType(actual) &&
+                           !primitiveAccepts(expected.value, actual)) {
                     throw BlochError(ErrorCategory::Semantic, arg->line, arg->column,
                                      "argument #" + std::to_string(i + 1) + " to '" + name +
                                          "' expected '" + typeToString(expected.value) + "'");
@@ -2526,8 +2536,7 @@ namespace bloch::compiler {
                         throw BlochError(ErrorCategory::Semantic, node.line, node.column,
                                          "cannot assign null to '" + node.name + "'");
                     }
-                } else if (valType.value != ValueType::Unknown &&
-                           !isAssignableType(targetType, valType)) {
+                } else if (!isUnknownType(valType) && !isAssignableType(targetType, valType)) {
                     throw BlochError(ErrorCategory::Semantic, node.line, node.column,
                                      "assignment to '" + node.name + "' expects '" +
                                          typeLabel(targetType) + "'");
@@ -2552,13 +2561,13 @@ namespace bloch::compiler {
                     }
                 }
                 if (!targetType.className.empty() && valType.value != ValueType::Null &&
-                    valType.value != ValueType::Unknown && !isAssignableType(targetType, valType)) {
+                    !isUnknownType(valType) && !isAssignableType(targetType, valType)) {
                     throw BlochError(ErrorCategory::Semantic, node.line, node.column,
                                      "assignment to field '" + node.name + "' expects '" +
                                          typeLabel(targetType) + "'");
-                } else if (field->type.value != ValueType::Unknown &&
-                           valType.value != ValueType::Unknown &&
-                           !matchesPrimitive(targetType.value, valType.value)) {
+                } else if (field->type.value != ValueType::Unknown && !isUnknownType(valType) &&
+                           valType.value != ValueType::Null &&
+                           !primitiveAccepts(targetType.value, valType)) {
                     throw BlochError(ErrorCategory::Semantic, node.line, node.column,
                                      "assignment to field '" + node.name + "' expects '" +
                                          typeToString(targetType.value) + "'");
@@ -2632,13 +2641,13 @@ namespace bloch::compiler {
                 }
             }
             if (!targetType.className.empty() && valType.value != ValueType::Null &&
-                valType.value != ValueType::Unknown && !isAssignableType(targetType, valType)) {
+                !isUnknownType(valType) && !isAssignableType(targetType, valType)) {
                 throw BlochError(ErrorCategory::Semantic, node.line, node.column,
                                  "assignment to field '" + node.member + "' expects '" +
                                      typeLabel(targetType) + "'");
-            } else if (targetType.value != ValueType::Unknown &&
-                       valType.value != ValueType::Unknown &&
-                       !matchesPrimitive(targetType.value, valType.value)) {
+            } else if (targetType.value != ValueType::Unknown && !isUnknownType(valType) &&
+                       valType.value != ValueType::Null &&
+                       !primitiveAccepts(targetType.value, valType)) {
                 throw BlochError(ErrorCategory::Semantic, node.line, node.column,
                                  "assignment to field '" + node.member + "' expects '" +
                                      typeToString(targetType.value) + "'");
